@@ -169,19 +169,48 @@ func (st *solveState) exitSummary(call *ssa.Call, callee *ssa.Function) bool {
 		}
 		return false
 	}
+	// A value local to the helper (the result of one of its own calls, a load) has ONE value during this call - the
+	// helper is loop-free - so the conditions of the exit taken hold for that value: it is kept as a variable of this
+	// call site (existential), with the range of its type, instead of dropping every fact that mentions it. The
+	// relation between the results (size == n + m + dataSize) and the guards (len(b) >= n + m + dataSize) survives.
+	_ = local
+	local = func(l Lin) bool { return false }
+	rename := func(l Lin) Lin {
+		for _, id := range l.vars() {
+			k := e.keys[id]
+			if k.root == nil {
+				continue
+			}
+			in, ok := k.root.(interface{ Parent() *ssa.Function })
+			if !ok || in.Parent() != callee {
+				continue
+			}
+			fk := vkey{call, fmt.Sprintf("~%d%c%s", id, k.kind, k.path), 'v'}
+			_, existed := e.ids[fk]
+			fid := e.id(fk)
+			if !existed {
+				x := linVar(fid)
+				switch {
+				case k.kind != 'v':
+					st.addIneq(geq(x, linConst(0)))
+				case k.path == "" && isIntegerType(k.root.Type()):
+					if lo, hi := e.interval(k.root, 0); lo != nil {
+						st.addIneq(geq(x, linBig(lo)))
+						st.addIneq(leq(x, linBig(hi)))
+					}
+				}
+			}
+			l = l.subst(id, linVar(fid))
+		}
+		return l
+	}
 	var cf factSet
 	e.condFacts(ret.Block(), &cf)
 	for _, q := range cf.ineqs {
-		l := tmp.substLin(q.L)
-		if !local(l) {
-			st.addIneq(Ineq{l})
-		}
+		st.addIneq(Ineq{rename(tmp.substLin(q.L))})
 	}
 	for _, nq := range cf.neqs {
-		l := tmp.substLin(nq)
-		if !local(l) {
-			st.fs.neqs = append(st.fs.neqs, st.substLin(l))
-		}
+		st.fs.neqs = append(st.fs.neqs, st.substLin(rename(tmp.substLin(nq))))
 	}
 	for i := 0; i < nres; i++ {
 		r := result(i)
@@ -191,14 +220,14 @@ func (st *solveState) exitSummary(call *ssa.Call, callee *ssa.Function) bool {
 		rv := unspill(ret.Results[i])
 		switch {
 		case isIntegerType(r.Type()):
-			l := tmp.substLin(e.expand(rv))
+			l := rename(tmp.substLin(e.expand(rv)))
 			if !local(l) {
 				x := e.expand(r)
 				st.addIneq(geq(x, l))
 				st.addIneq(leq(x, l))
 			}
 		case bytesLike(r.Type()):
-			l := tmp.substLin(e.lenOf(rv, 'l'))
+			l := rename(tmp.substLin(e.lenOf(rv, 'l')))
 			if !local(l) {
 				x := e.lenOf(r, 'l')
 				st.addIneq(geq(x, l))
